@@ -13,6 +13,9 @@ def evalLine (line : String) : String :=
   | "tlv" => match bytesSpec? rest with
     | some x => outcomeStr (opTlv x)
     | none => "bad-op"
+  | "rb" => match bytesSpec? rest with
+    | some x => outcomeStr (opRb x)
+    | none => "bad-op"
   | "bld" => optStr (opBld rest)
   | "wr" => optStr (opWr rest)
   | "tbl" => opTbl
